@@ -2,7 +2,7 @@
     of the library as a function from a list of byte strings to a result
     class and a list of byte strings (the projected observables).  The Go
     harness implements the same table on top of the real code. *)
-From DV Require Import Base.Bytes Label.Model V4.Model V4.Accessors V4.Builders V6.Model V6.Dump V6.Relay Raw.Model Client.Call Client.Routing Client.Macro Server.Model.
+From DV Require Import Base.Bytes Label.Model V4.Model V4.Accessors V4.Builders V6.Model V6.Dump V6.Relay Raw.Model Client.Call Client.Routing Client.Macro Client.Lease Server.Model.
 
 
 (** entry 1: rfc1035label.FromBytes(b) -> Labels *)
@@ -308,6 +308,38 @@ Definition e_server6 (args : list bytes) : res (list bytes) :=
                          | PeerOther => [[]; []; enc_msg (i6_msg i)]
                          end) invs ++ [[if exited then x01 else x00]]).
 
+(** * lease exchanges (entry 90 nclient4.Request, 91 nclient6.RapidSolicit):
+      args = hardware address (v4) / solicit id (v6), transaction id (v4) / request id (v6), n1, then the n1 datagrams of
+      phase 1 and the datagrams of phase 2, in arrival order *)
+Definition wire_obs (p : pkt4) : list bytes :=
+  match enc4 p with Ok b => match dec4 b with Ok q => obs_pkt4 q | _ => [] end | _ => [] end.
+Definition reply_obs (p : pkt4) : list bytes := [obs_ip (p_yiaddr p); [n2b (msg_type4 p)]; obytes (server_id p)].
+Definition e_lease4 (args : list bytes) : res (list bytes) :=
+  match args with
+  | hw :: xid :: n1 :: ws =>
+    let k := N.to_nat (n_of_be n1) in
+    match lease_exchange hw xid (firstn k ws) (skipn k ws) with
+    | NoOffer => Ok [[x01]]
+    | NoAnswer o rq => Ok ([x02] :: wire_obs rq ++ reply_obs o)
+    | Leased o rq a => Ok ([x03] :: wire_obs rq ++ reply_obs o ++ reply_obs a)
+    | Nak o rq a => Ok ([x04] :: wire_obs rq ++ reply_obs o ++ reply_obs a)
+    end
+  | _ => Err
+  end.
+Definition e_lease6 (args : list bytes) : res (list bytes) :=
+  match args with
+  | sx :: rx :: n1 :: ws =>
+    let k := N.to_nat (n_of_be n1) in
+    match rapid_solicit sx rx (firstn k ws) (skipn k ws) with
+    | V6NoReply => Ok [[x01]]
+    | V6Reply m => Ok ([x02] :: dump_msg m)
+    | V6BuildError => Ok [[x03]]
+    | V6RequestNoReply rq => Ok ([x04] :: dump_msg rq)
+    | V6Requested rq r => Ok ([x05] :: dump_msg rq ++ dump_msg r)
+    end
+  | _ => Err
+  end.
+
 Definition run (entry : N) (args : list bytes) : res (list bytes) :=
   match entry with
   | 1 => e_label_from args
@@ -328,6 +360,8 @@ Definition run (entry : N) (args : list bytes) : res (list bytes) :=
   | 71 => e_timed_call args
   | 72 => e_routing args
   | 80 => e_server4 args
+  | 90 => e_lease4 args
+  | 91 => e_lease6 args
   | 81 => e_server6 args
   | 73 => e_routing args
   | 61 => e_raw_read args
